@@ -110,3 +110,36 @@ package util
 //@   props C04
 //@   requires c != nil && c.Metadata != nil && v != nil
 //@   loop 1 invariant [merges-from-a-private-copy-of-the-defaults] fresh(#range) || (GcopyCount > old(GcopyCount) && GcopyLastFailed)
+
+// ---- C15: what Save writes into the archive, and where. Every file of a chart is written under
+// <prefix>/<chart name>/, each dependency under <that directory>/charts/<dependency name>/ (so the
+// dependency tree is preserved at every depth); a successful write contains Chart.yaml, every template
+// and every other file under its own name.
+
+//@ ghost func chartBase(c *chart.Chart, prefix string) string = fjoin(prefix, chartName(c))
+//@ ghost func grows() bool = forall n string :: old(GtarNames)[n] ==> GtarNames[n]
+
+//@ func writeToTar
+//@   props C15
+//@   requires out != nil
+//@   ensures [entry-under-its-name] result == nil ==> GtarNames[name]
+//@   ensures [only-this-entry] GtarNames == old(GtarNames) || GtarNames == store(old(GtarNames), name, true)
+
+//@ func writeTarContents
+//@   props C15
+//@   requires out != nil && c != nil && c.Metadata != nil && filesNonNilList(c.Templates) && filesNonNilList(c.Files) && filesNonNilList(c.Raw)
+//@   ensures [nothing-removed] forall n string :: old(GtarNames)[n] ==> GtarNames[n]
+//@   ensures [chart-file-written] result == nil ==> GtarNames[fjoin(chartBase(c, prefix), "Chart.yaml")]
+//@   ensures [every-template-written-under-its-name] result == nil ==> forall j int :: 0 <= j && j < len(c.Templates) ==> GtarNames[fjoin(chartBase(c, prefix), c.Templates[j].Name)]
+//@   ensures [every-file-written-under-its-name] result == nil ==> forall j int :: 0 <= j && j < len(c.Files) ==> GtarNames[fjoin(chartBase(c, prefix), c.Files[j].Name)]
+//@   ensures [every-dependency-written-under-charts] result == nil ==> forall j int :: 0 <= j && j < len(c.dependencies) ==> GtarNames[fjoin(chartBase(c.dependencies[j], fjoin(chartBase(c, prefix), "charts")), "Chart.yaml")]
+//@   loop 1 invariant [grows] (forall n string :: old(GtarNames)[n] ==> GtarNames[n]) && GtarNames[fjoin(chartBase(c, prefix), "Chart.yaml")]
+//@   loop 2 invariant [grows] (forall n string :: old(GtarNames)[n] ==> GtarNames[n]) && GtarNames[fjoin(chartBase(c, prefix), "Chart.yaml")]
+//@   loop 2 invariant [templates-so-far] forall j int :: 0 <= j && j < #iter ==> GtarNames[fjoin(chartBase(c, prefix), c.Templates[j].Name)]
+//@   loop 3 invariant [grows] (forall n string :: old(GtarNames)[n] ==> GtarNames[n]) && GtarNames[fjoin(chartBase(c, prefix), "Chart.yaml")]
+//@   loop 3 invariant [templates] forall j int :: 0 <= j && j < len(c.Templates) ==> GtarNames[fjoin(chartBase(c, prefix), c.Templates[j].Name)]
+//@   loop 3 invariant [files-so-far] forall j int :: 0 <= j && j < #iter ==> GtarNames[fjoin(chartBase(c, prefix), c.Files[j].Name)]
+//@   loop 4 invariant [grows] (forall n string :: old(GtarNames)[n] ==> GtarNames[n]) && GtarNames[fjoin(chartBase(c, prefix), "Chart.yaml")]
+//@   loop 4 invariant [templates] forall j int :: 0 <= j && j < len(c.Templates) ==> GtarNames[fjoin(chartBase(c, prefix), c.Templates[j].Name)]
+//@   loop 4 invariant [files] forall j int :: 0 <= j && j < len(c.Files) ==> GtarNames[fjoin(chartBase(c, prefix), c.Files[j].Name)]
+//@   loop 4 invariant [dependencies-so-far] forall j int :: 0 <= j && j < #iter ==> GtarNames[fjoin(chartBase(c.dependencies[j], fjoin(chartBase(c, prefix), "charts")), "Chart.yaml")]
